@@ -254,14 +254,19 @@ impl Report {
         for l in &lines {
             println!("{l}");
         }
+        // A violation is a verdict; vacuity guards only qualify a *pass* (and a violation
+        // usually starves the counters the guards look at).
+        if alarms > 0 {
+            for e in &self.machinery_errors {
+                eprintln!("note: property={} {} (not decisive: violations were found)", self.id, e);
+            }
+            return 1;
+        }
         if !self.machinery_errors.is_empty() {
             for e in &self.machinery_errors {
                 eprintln!("MACHINERY-ERROR property={} {}", self.id, e);
             }
             return 2;
-        }
-        if alarms > 0 {
-            return 1;
         }
         println!(
             "OK property={} tier={} wall_s={:.1} evidence={}",
